@@ -49,7 +49,7 @@ def summary (st : DState) : DState × String :=
   let active := sortNat ((tm.map.filter (fun e => !(taskDone tm.tasks e.2))).map (fun e => e.1))
   let alive := (tm.tasks.filter (fun t => !t.done)).length
   ({ st with seen := tm.log.length },
-   s!"active={Proto.showNatList active} runs={Proto.showNatList runs} alive={alive} order={b01 (orderOk tm.log)}")
+   s!"active={Proto.showNatList active} runs={Proto.showNatList runs} alive={alive} down={b01 tm.shutdownReturned} order={b01 (orderOk tm.log)}")
 
 def passes (tm : TM) : Nat → TM
   | 0 => tm
@@ -60,11 +60,11 @@ def unloadReply (c : ClassInfo) (viaOuter : Bool) (delay circuits relays exits o
   let w1 := (w0.run [.add false 3, .addPrefix false 4 8]).run (loadOps c viaOuter 1 2 7)
   let s0 : UState := { w := w1, self := 1, proxy := 2, viaOuter := viaOuter,
                        circuits := circuits, relays := relays, exits := exits, openExit := openExit }
-  let s := s0.run (fun k now => Gen.removalSleeps k now delay) c.script
+  let s := s0.run (fun k now => Gen.removalSleeps k now delay) (fun _ => 0) c.script
   let hears := fun (l : Lid) => [7, 8, 99].any (fun p => (s.w.reach p).contains l)
   let direct := fun (l : Lid) => [7, 8, 99].any (fun p => (s.w.inner.recipients p).contains l)
   s!"listening={b01 (hears 1)} proxy={b01 (direct 2)} tm={b01 s.tmDown} cache={b01 (s.cacheDown || !c.hasCache)} " ++
-  s!"db={b01 (s.dbClosed || !c.hasDb)} open={s.openExit} tables={s.circuits + s.relays + s.exits}"
+  s!"db={b01 (s.dbClosed || !c.hasDb)} open={s.openExit} tables={s.circuits + s.relays + s.exits} ref={b01 (s.w.tunnelRef == some 1)}"
 
 def step (st : DState) (toks : List String) : DState × String :=
   match toks with
@@ -92,9 +92,13 @@ def step (st : DState) (toks : List String) : DState × String :=
         | ["fwd", a, b] => do pure (.setFwd (← a.toNat?) (← b.toNat?))
         | ["unfwd", a] => do pure (.clearFwd (← a.toNat?))
         | ["open", b] => some (.setOpen (b == "1"))
+        | ["ref", x] => if x == "none" then some (.setRef none) else do pure (.setRef (some (← x.toNat?)))
+        | ["anon", l, b] => do pure (.setAnon (← l.toNat?) (b == "1"))
         | _ => none
       match op, rest with
       | some op, _ => ({ st with w := st.w.step op }, "ok")
+      | none, ["tnotify", b] => (st, Proto.showNatList (st.w.reachTunnel (b == "1")))
+      | none, ["driven"] => (st, Proto.showNatList st.w.tunnelRef.toList)
       | none, ["notify", p] =>
           match p.toNat? with
           | some p => (st, Proto.showNatList (st.w.reach p))
